@@ -200,10 +200,18 @@ def consolidate (rs : List Route) : List Route := rs.foldr consolidateStep []
 def drawGroups (nHandles c : Nat) : Nat × Nat :=
   if nHandles > 1 then (c + 1, c + 2) else (0, c + 1)
 
-/-- the matcher of `handle [<path>]` -/
+/-- the matcher of `handle [<path>]`; path 100 is `handle_path /a/*`: the real path matcher with
+    the pattern `/a/*`, which on the path alphabet matches `/a/b` and `/a/c` -/
 def handleSets : Option Nat → List (List Matcher)
-  | some q => [[.atom .path [q]]]
+  | some q => if q = 100 then [[.atom .path [2, 5]]] else [[.atom .path [q]]]
   | none => []
+
+/-- `handle_path` (rewrite/caddyfile.go:parseCaddyfileHandlePath) prepends a route with the
+    `rewrite` handler stripping the prefix to the body's routes — after `buildSubroute` has
+    consolidated them -/
+def stripRoutes : Option Nat → List Route
+  | some 100 => [.mk 0 [] [.strip] false]
+  | _ => []
 
 mutual
 /-- one directive: its route (group still unset) and the counter afterwards -/
@@ -215,7 +223,7 @@ def adaptNode : Node → Nat → Route × Nat
     match adaptNodes body c with
     | (rs, c1) =>
       (.mk 0 (handleSets p)
-          [.sub (consolidate (setGroups (drawGroups (body.filter Node.isHandle).length c1).1 body rs)) false []] false,
+          [.sub (stripRoutes p ++ consolidate (setGroups (drawGroups (body.filter Node.isHandle).length c1).1 body rs)) false []] false,
         (drawGroups (body.filter Node.isHandle).length c1).2)
 def adaptNodes : List Node → Nat → List Route × Nat
   | [], c => ([], c)
